@@ -26,6 +26,9 @@ type RecStorage struct {
 	// EffsAtFail is the number of mutating calls recorded when the last injected Retrieve failure
 	// fired (0 = the request had not touched storage yet: the failure hit its lookup phase).
 	EffsAtFail int
+	// FailHits counts the injected Retrieve failures that fired.
+	FailHits   int
+	LastFailID atree.SlabID
 }
 
 var _ atree.SlabStorage = &RecStorage{}
@@ -55,6 +58,8 @@ func (r *RecStorage) Retrieve(id atree.SlabID) (atree.Slab, bool, error) {
 	r.Retrieves++
 	if r.FailRetrieve[id] || (r.FailRetrieveAt != 0 && r.Retrieves == r.FailRetrieveAt) {
 		r.EffsAtFail = len(r.Effs)
+		r.FailHits++
+		r.LastFailID = id
 		return nil, false, ErrInjected
 	}
 	return r.Inner.Retrieve(id)
